@@ -369,6 +369,11 @@ CAST_DISPOSITIONS = {
     "add_constant:len(constants)->u16": ("witness", "`len([1, 1, … 65536 literals])` panics `assertion failed: self.constants.len() <= u16::MAX` (findings/cast_witnesses.py constants)"),
     "add_ffi_call_args:len(ffi_call_args)->u16": ("witness", "`let x = 1` then 65536 lines `sin(x)` panics `assertion failed: self.ffi_call_args.len() <= u16::MAX` (findings/cast_witnesses.py fficallargs)"),
     "add_string:len(strings)->u16": ("witness", "`let x = 1` then 65537 lines `type(x)` panics `assertion failed: self.strings.len() <= u16::MAX` (findings/cast_witnesses.py addstring)"),
+    "compile_expression:Call:len(args)->u16": ("witness", "`fn ffn(p0, …, p65535, qq) = p1` called with 65537 arguments: the frame pointer is computed from args.len() wrapped to 1, the VM panics `index out of bounds` in GetLocal (findings/cast_witnesses.py callargs; ~12 min)"),
+    "compile_expression:BuildStructInstance:expr->u16": ("witness", "65537 struct definitions `struct SSt<i> { a: Scalar }`, then `SSt65536 { a: xx }` evaluates to `SSt0 { a: 1 }` (findings/cast_witnesses.py structidx; ~50 min)"),
+    "compile_expression:BuildStructInstance:len(fields)->u16": ("witness", "a struct with 65537 fields: instantiation pops only 1 value, `sst.f65536` panics `Expected value to be a struct` (findings/cast_witnesses.py structfields)"),
+    "get_function_idx:len(bytecode)->u16": ("witness", "65537 function definitions, then a call: panics `assertion failed: position <= u16::MAX` (findings/cast_witnesses.py functionidx; ~15 min)"),
+    "compile_expression:AccessStructField:index_in(struct_type)->u16": ("bounded", "a field index above 65535 needs a struct value with more than 65536 fields, which cannot be built without passing the truncating BuildStructInstance site first (see CAST:compile_expression:BuildStructInstance:len(fields)->u16)"),
     "compile_expression:JoinString:len(expr)->u16": ("bounded", _A),
     "compile_expression:FFICallFunction:len(args)->u16": ("bounded", "the type checker rejects a call whose argument count differs from the declared parameter count (WrongArity), and Vm::add_foreign_function asserts the declared count equals the registry arity (at most 4)"),
     "compile_statement:FFICallProcedure:len(args)->u16": ("bounded", "elaborate_statement rejects procedure calls whose argument count is outside procedure.arity (at most 3)"),
